@@ -672,6 +672,8 @@ func runC35(c *Ctx) {
 					}
 					if cl, ok := ast.Unparen(rhs).(*ast.CallExpr); ok && rw.IsCall(cl, "fmt.Sprintf") {
 						vsites = append(vsites, vsite{rw, d, rhs})
+					} else if h, pt := hostPlusPort(rw, rhs); h != nil && pt != nil {
+						vsites = append(vsites, vsite{rw, d, rhs})
 					} else {
 						bareDefs = append(bareDefs, vsite{rw, d, rhs})
 					}
@@ -740,7 +742,9 @@ func runC35(c *Ctx) {
 				nset++
 				okVal = okVal && isHost(bd.g, bd.val)
 				lv := rw.varOf(call.Args[1])
-				bad, decided := rw.CutFromDefs(call, lv, func(p string) bool { return !strings.HasPrefix(p, "call:fmt.Sprintf") }, func(at atom) bool {
+				bad, decided := rw.CutFromDefs(call, lv, func(p string) bool {
+					return !strings.HasPrefix(p, "call:fmt.Sprintf") && !strings.Contains(p, "call:strconv.Itoa(")
+				}, func(at atom) bool {
 					be, ok := ast.Unparen(at.e).(*ast.BinaryExpr)
 					if !ok || at.tag != nil || be.Op != token.EQL && be.Op != token.NEQ {
 						return false
@@ -759,6 +763,9 @@ func runC35(c *Ctx) {
 				if cl, ok := ast.Unparen(vs.val).(*ast.CallExpr); ok && vs.g.IsCall(cl, "fmt.Sprintf") {
 					f0, _ := vs.g.ConstVal(cl.Args[0])
 					okVal = okVal && len(cl.Args) == 3 && f0 == `"%s:%d"` && isHost(vs.g, cl.Args[1]) && strings.HasSuffix(vs.g.Prov(cl.Args[2]), ".GatewayPort") && port443(vs.g, vs.at, false)
+				} else if h, pt := hostPlusPort(vs.g, vs.val); h != nil && pt != nil {
+					// host + ":" + strconv.Itoa(port): the same text as "%s:%d"
+					okVal = okVal && isHost(vs.g, h) && strings.HasSuffix(vs.g.Prov(pt), ".GatewayPort") && port443(vs.g, vs.at, false)
 				} else {
 					okVal = okVal && isHost(vs.g, vs.val) && port443(vs.g, vs.at, true)
 				}
@@ -1279,4 +1286,31 @@ func runC37(c *Ctx) {
 		okSrv = n >= 2
 	}
 	c.Ob("auth-first", "New#apex-servers-use-the-mounted-router", nw.Decl.Pos(), okSrv, "the apex HTTP servers are served by the router the authenticated group was mounted on")
+}
+
+// hostPlusPort: e is `h + ":" + strconv.Itoa(p)`; returns h and p, or nils.
+func hostPlusPort(g *Fn, e ast.Expr) (host, port ast.Expr) {
+	var ops []ast.Expr
+	var flat func(x ast.Expr)
+	flat = func(x ast.Expr) {
+		x = ast.Unparen(x)
+		if be, ok := x.(*ast.BinaryExpr); ok && be.Op == token.ADD {
+			flat(be.X)
+			flat(be.Y)
+			return
+		}
+		ops = append(ops, x)
+	}
+	flat(e)
+	if len(ops) != 3 {
+		return nil, nil
+	}
+	if v, ok := g.ConstVal(ops[1]); !ok || v != `":"` {
+		return nil, nil
+	}
+	call, ok := ops[2].(*ast.CallExpr)
+	if !ok || !g.IsCall(call, "strconv.Itoa") || len(call.Args) != 1 {
+		return nil, nil
+	}
+	return ops[0], call.Args[0]
 }
